@@ -11,7 +11,7 @@ SPEC = {
     "quick_procs": 2, "thorough_procs": 16, "timeout_quick": 400, "timeout_thorough": 2400,
     "anchors": ["PyMatterSim.static.gr:conditional_gr", "PyMatterSim.static.sq:conditional_sq"],
     "must_reach": ["PyMatterSim.static.gr:conditional_gr", "PyMatterSim.static.sq:conditional_sq"],
-    "floors": {"sq_huge": 500, "reused_arrays": 60, "gA": 800, "gr_column": 800, "gA_norm": 20, "positions_updated_in_place": 60, "gA_norm_fields_with_small_relative_variance": 3, "gA_norm_small_amplitude_fields": 3, "sq_pervector": 1000, "sq_average": 300,
+    "floors": {"sq_huge": 500, "reused_arrays": 60, "gA": 800, "gr_column": 800, "gA_norm": 20, "positions_updated_in_place": 60, "single_precision_coordinates": 20, "gA_norm_fields_with_small_relative_variance": 3, "gA_norm_small_amplitude_fields": 3, "sq_pervector": 1000, "sq_average": 300,
                "reduce_partial_gr": 15, "reduce_partial_sq": 20, "reduce_total": 50, "reduce_components": 80},
     "rule": ("single configurations x condition kinds {bool, float, complex128, real vector, complex vector, symmetric tensor, "
              "general tensor} x {2D,3D} x {orthogonal, triclinic (g only)} x masks x bin widths x integer wave-vector lists; "
@@ -231,6 +231,13 @@ def case_sq(ctx, rng):
     snaps, inf, cell = gc.static_system(rng, d=d, K=K, cellkind="ortho", frames=1, nmin=max(3, K), nmax=60, big=True)
     s = snaps.snapshots[0]
     N = inf["N"]
+    if (N + K + d) % 6 == 0:
+        # coordinates in single precision (what the GSD reader hands over); the transform is defined on the values as they are
+        SingleSnapshot, Snapshots = gc.records()
+        s = SingleSnapshot(timestep=s.timestep, nparticle=s.nparticle, particle_type=s.particle_type, positions=np.asarray(s.positions).astype(np.float32),
+                           boxlength=s.boxlength, boxbounds=s.boxbounds, realbounds=None, hmatrix=s.hmatrix)
+        snaps = Snapshots(nsnapshots=1, snapshots=[s])
+        ctx.count("single_precision_coordinates")
     types = s.particle_type
     L = np.diag(cell["H"]).copy()
     M = int(rng.integers(3, 30))
@@ -264,7 +271,7 @@ def case_sq(ctx, rng):
     per, ave = out
     q = 2 * np.pi * nv / L[None, :]
     qn = np.linalg.norm(q, axis=1)
-    ph = np.exp(-1j * (s.positions @ q.T))                 # (N, M)
+    ph = np.exp(-1j * (np.asarray(s.positions, dtype=np.float64) @ q.T))                 # (N, M)
     if kind == "bool":
         F = ph[A].sum(axis=0) / np.sqrt(A.sum())
         S = np.abs(F) ** 2
@@ -330,6 +337,7 @@ def case_sq(ctx, rng):
     if s.positions.flags.writeable and rng.random() < 0.35:
         newpos = cell["origin"] + rng.random((N, d)) * L
         s.positions[...] = newpos
+        newpos = np.asarray(s.positions, dtype=np.float64)          # what the object holds now (single-precision storage rounds)
         ok_u, out_u = ctx.call(key + "/positions_updated_in_place", conditional_sq, s, qarr, Acall, data=info)
         if ok_u:
             ph2 = np.exp(-1j * (newpos @ q.T))
